@@ -722,3 +722,55 @@ def folded_returns(cfg, func, atom_eval, limit=4000, subst=None, follow_exc=Fals
             continue
         stack += [(m, env) for l, m in n.succ if l != "exc"]
     return out
+
+
+def folded_conds(cfg, func, atom_eval, limit=4000, subst=None):
+    """the branch atoms met when the atoms atom_eval knows are decided by it (the others are explored both ways),
+    each with its text after the locals assigned along the path have been substituted (see folded_returns):
+    [(cond node, folded canonical text)] without duplicates"""
+    tables = dict(func.module.constants)
+    out, seen_out = [], set()
+    stack = [(cfg.entry, {})]
+    steps, seen_states = 0, set()
+    import copy as _c
+    while stack:
+        nid, env = stack.pop()
+        st_key = (nid, tuple(sorted((k, utext(v)) for k, v in env.items())))
+        if st_key in seen_states:
+            continue
+        seen_states.add(st_key)
+        steps += 1
+        if steps > limit:
+            raise AnalysisError("%s: path enumeration did not terminate" % func.qual)
+        n = cfg.nodes[nid]
+        if n.kind in ("return", "exit", "raise", "raise_exit"):
+            continue
+        if n.kind == "stmt" and isinstance(n.ast, ast.Assign) and len(n.ast.targets) == 1:
+            val = _Fold(env, tables, subst).visit(_c.deepcopy(n.ast.value))
+            t = n.ast.targets[0]
+            env = dict(env)
+            if isinstance(t, ast.Name):
+                env[t.id] = val
+            elif isinstance(t, ast.Tuple) and isinstance(val, ast.Tuple) and len(t.elts) == len(val.elts) \
+                    and all(isinstance(x, ast.Name) for x in t.elts):
+                for x, v in zip(t.elts, val.elts):
+                    env[x.id] = v
+            else:
+                for x in ast.walk(t):
+                    if isinstance(x, ast.Name):
+                        env.pop(x.id, None)
+        if n.kind == "cond":
+            v = atom_eval(n.exprs[0])
+            if v is None:
+                folded = _Fold(env, tables, subst).visit(_c.deepcopy(n.exprs[0]))
+                v = _const_truth(folded)
+                if v is None:
+                    k = (n.id, utext(folded))
+                    if k not in seen_out:
+                        seen_out.add(k)
+                        out.append((n, utext(folded)))
+            if v is not None:
+                stack += [(m, env) for l, m in n.succ if l == ("T" if v else "F")]
+                continue
+        stack += [(m, env) for l, m in n.succ if l != "exc"]
+    return out
